@@ -38,8 +38,14 @@ func rep(class string, k int) core.Dec {
 	switch class[1:] {
 	case "NaN":
 		d.Form = 3
+		// the coefficient and exponent fields of a NaN mean nothing, but they exist (exported
+		// fields; a payload parser could fill them): no operation may be steered by them
+		d.Exp = int32([]int{0, 3, -7, 0, 40}[k%5])
+		d.Coeff = []string{"0", "1", "0", "12345678901234567890123456789012345678901", "7"}[k%5]
 	case "sNaN":
 		d.Form = 2
+		d.Exp = int32([]int{0, 0, 5, -2, 1}[k%5])
+		d.Coeff = []string{"0", "9", "1", "0", "340282366920938463463374607431768211457"}[k%5]
 	case "Inf":
 		d.Form = 1
 		if class[0] == 'j' {
